@@ -25,12 +25,13 @@
         model means ([emitted_numbers_are_cpythons], [emitted_bytes_decode]); the table erg takes each number from is
         the one the translator found in codegen.rs ([table_sources_match_codegen]).  Finite tables
         (gen/Opcodes.v, gen/CPython.v: regenerated from opcode*.rs / codegen.rs / the installed interpreters).
+        [default_target_is_c01_model]: at 3.11 the version-indexed model is, unit by unit, the model of property C01.
     (3) Interpreter selection: [run_uses_selected_interpreter]; the code before the repair is refuted
         ([run_uses_selected_interpreter_nofix_refuted]): with --py-command python3.8 it compiles for 3.8 and runs
         the default interpreter. *)
 From Coq Require Import ZArith NArith List Bool.
 From ErgV Require Import Common.Sx CoreErg.Syntax CoreErg.Sem CoreErg.Codegen CoreErg.VM CoreErg.Spec_C01 CoreErg.Proofs_C01.
-From ErgV Require Import gen.Opcodes gen.CPython Versions.Model Versions.Spec Versions.Proofs Versions.ProofsTab.
+From ErgV Require Import gen.Opcodes gen.CPython Versions.Model Versions.Spec Versions.Proofs Versions.ProofsTab Versions.ProofsC01.
 Import ListNotations.
 Close Scope string_scope.
 Close Scope N_scope.
@@ -92,6 +93,12 @@ Proof.
   intros v prog fuel lv prev codev Pv ld pred coded Pd Hf Hv Hd Hwr Hfu.
   exact (targets_agree v default_target prog fuel lv prev codev Pv ld pred coded Pd Hf Hv Hd Hwr Hfu).
 Qed.
+
+(** "the default target" is the object of property C01: at 3.11 the version-indexed model of the code generator is, unit by
+    unit, the model CoreErg/Codegen.v that C01's theorems and C01's bytecode tie are about ([inj] renames the opcodes) *)
+Theorem default_target_is_c01_model : forall pre_len pre prog,
+  compile_v default_target pre_len pre prog = injr (compile pre prog).
+Proof. exact compile_311_is_c01. Qed.
 
 (** the model writes only instructions the target has *)
 Theorem compile_v_emits_target_instructions : forall v pre_len pre prog code P,
